@@ -118,10 +118,9 @@ const (
 )
 
 // Esc escapes character data / attribute values.
-func Esc(s string) string {
-	r := strings.NewReplacer("&", "&amp;", "<", "&lt;", ">", "&gt;", `"`, "&quot;", "\r", "&#13;")
-	return r.Replace(s)
-}
+func Esc(s string) string { return escaper.Replace(s) }
+
+var escaper = strings.NewReplacer("&", "&amp;", "<", "&lt;", ">", "&gt;", `"`, "&quot;", "\r", "&#13;")
 
 func (s *Sheet) path(i int) string {
 	if s.Path != "" {
